@@ -9,6 +9,7 @@ import NomtModel.Driver.BitOpsMode
 import NomtModel.Driver.SeglogMode
 import NomtModel.Driver.TriePosMode
 import NomtModel.Driver.ShardsMode
+import NomtModel.Driver.FinishMode
 import NomtModel.Driver.DeltaMode
 import NomtModel.Driver.OvfMode
 import NomtModel.Driver.LeafUpdMode
@@ -51,6 +52,7 @@ def main (args : List String) : IO UInt32 := do
   | ["seglog"] => loop stdin stdout SegD.seglogStep {}; return 0
   | ["triepos"] => loop stdin stdout trieposStep none; return 0
   | ["shards"] => loop stdin stdout shardsStep {}; return 0
+  | ["finishops"] => loop stdin stdout finishStep {}; return 0
   | ["delta"] => loop stdin stdout deltaStep {}; return 0
   | ["overflow"] => loop stdin stdout OvfD.ovfStep {}; return 0
   | ["leafupd"] => loop stdin stdout leafupdStep none; return 0
